@@ -109,3 +109,62 @@ func LibFamily(seed int64, n int, opts []cat.Opts, cb bool) []*cat.Catalog {
 	}
 	return out
 }
+
+// LibGroups is the big-group motif over declared functions (needed where the failure picture
+// goes by constructor identity): five to seven feeders of group T4@g registered in a random
+// order over one or two scopes, a consumer of the group that also needs the plain T4 (provided
+// by a constructor that may fail, or not at all), and Invokes of the group itself, of the
+// consumer's output and of group + optional T4. With one fault any feeder may fail - the k-th
+// in registration order after k-1 successes.
+func LibGroups(seed int64, n int, opts []cat.Opts, cb bool) []*cat.Catalog {
+	r := rand.New(rand.NewSource(seed))
+	feeders := []string{"L05", "L14", "L15", "L16", "L18", "L11", "L17", "L06"}
+	var out []*cat.Catalog
+	for i := 0; i < n; i++ {
+		c := &cat.Catalog{Parent: map[string]string{"r": "", "a": "r"}, Fns: map[string]*cat.Fn{}, Opts: opts}
+		d := 1
+		add := func(id, nme, scope string) {
+			t := lib.Templates[nme]
+			f := &cat.Fn{Kind: t.Kind, Ps: append([]cat.Param(nil), t.Ps...), Rs: append([]cat.Result(nil), t.Rs...), Dur: d, Scope: scope}
+			d *= 2
+			f.Enc.Lib = nme
+			if t.Kind == "inv" {
+				f.Scope = ""
+			} else {
+				f.Cb = cb && r.Intn(3) > 0
+			}
+			c.Fns[id] = f
+		}
+		k := 5 + r.Intn(3)
+		perm := r.Perm(len(feeders))
+		for j := 0; j < k; j++ {
+			s := "r"
+			if r.Intn(4) == 0 {
+				s = "a"
+			}
+			add(fmt.Sprintf("c%d", j+1), feeders[perm[j]], s)
+		}
+		if r.Intn(3) != 0 {
+			add("c8", "L01", "r") // T0 for L17 / L06 (sometimes missing: a feeder with a gap)
+		}
+		add("c9", "L19", []string{"r", "a"}[r.Intn(2)])
+		switch r.Intn(3) {
+		case 0:
+			add("ca", "L20", "r")
+		case 1:
+			add("ca", "L21", "r") // needs T1: missing
+		}
+		add("i1", "I05", "")
+		add("i2", "I02", "")
+		add("i3", "I07", "")
+		for _, id := range c.FnIDs() {
+			if c.Fns[id].Kind != "inv" {
+				c.Order = append(c.Order, id)
+			}
+		}
+		r.Shuffle(len(c.Order), func(a, b int) { c.Order[a], c.Order[b] = c.Order[b], c.Order[a] })
+		c.Note = fmt.Sprintf("libgroups seed=%d #%d", seed, i)
+		out = append(out, c)
+	}
+	return out
+}
